@@ -57,7 +57,8 @@ PROOF_FILES = ["theories/Props/C18.v", "theories/Checker/Kkt.v", "theories/Check
 BUILD_TARGETS = ["theories/Props/C18.vo", "theories/Model/SimplexRun.vo", "theories/Checker/KktZ.vo",
                  "theories/Proofs/SimplexTrace.vo"]
 EPS = 2.0 ** -52
-MW = 128                 # witness weights are multiples of 2^-MW
+MW = 128                 # witness weights of the optimum are multiples of 2^-MW
+MP = 64                  # witness weights of the hull point nearest to the returned point: multiples of 2^-MP
 TB = 2 * MW - 120        # KKT slack T = L^2 2^TB in the checker's units, i.e. 2^-120 L^2
 N_PERT = 8
 PERT_REL = 2.0 ** -50
@@ -162,21 +163,24 @@ def nearest_weights(sub_pts, p):
     return lam
 
 
-def round_weights(lam):
-    """Fractions >= 0 summing to 1 -> integers >= 0 summing to 2^MW (nearest multiples of 2^-MW)"""
-    W = [int(l * (1 << MW) + Fr(1, 2)) for l in lam]
+def round_weights(lam, bits):
+    """Fractions >= 0 summing to 1 -> integers >= 0 summing to 2^bits (nearest multiples of 2^-bits)"""
+    W = [int(l * (1 << bits) + Fr(1, 2)) for l in lam]
     i = max(range(len(W)), key=lambda j: W[j])
-    W[i] += (1 << MW) - sum(W)
-    assert all(w >= 0 for w in W) and sum(W) == 1 << MW
+    W[i] += (1 << bits) - sum(W)
+    assert all(w >= 0 for w in W) and sum(W) == 1 << bits
     return W
 
 
-def expansion(W):
-    """integer 0 <= W <= 2^MW  ->  floats whose exact sum is W * 2^-MW (each chunk has <= 53 bits)"""
+def expansion(W, bits):
+    """integer 0 <= W <= 2^bits  ->  floats whose exact sum is W * 2^-bits (each chunk has <= 53 bits)"""
     out = []
-    for chunk, shift in ((W >> 75, 75), ((W >> 22) & ((1 << 53) - 1), 22), (W & ((1 << 22) - 1), 0)):
-        if chunk:
-            out.append(math.ldexp(float(chunk), shift - MW))
+    shift = max(0, W.bit_length() - 53)
+    while W:
+        chunk = W >> shift
+        out.append(math.ldexp(float(chunk), shift - bits))
+        W -= chunk << shift
+        shift = max(0, W.bit_length() - 53)
     return out or [0.0]
 
 
@@ -323,8 +327,8 @@ def nlist(xs):
     return flist([float(i) for i in xs])
 
 
-def wlist(Ws):
-    return "[" + ";".join(flist(expansion(W)) for W in Ws) + "]"
+def wlist(Ws, bits):
+    return "[" + ";".join(flist(expansion(W, bits)) for W in Ws) + "]"
 
 
 def parse_coq_value(s):
@@ -479,7 +483,7 @@ def prepare(args):
     pts, r, perts = args
     k = len(pts)
     S, lam, q = oracle(pts)
-    Wq = round_weights(lam)
+    Wq = round_weights(lam, MW)
     flatY = [x for p in pts for x in p]
     info = dict(q=[float(x) for x in q], nq=math.sqrt(float(sum(x * x for x in q))), S=S,
                 dep=affinely_dependent(pts), layout=[], check={}, mag={})
@@ -507,8 +511,8 @@ def prepare(args):
             continue
         p, sub = sol[name]
         lamp = nearest_weights([pts[i] for i in sub], p)
-        Wp = round_weights(lamp)
-        parts.append(f"judge {N} {MW} {TB} Y {flist(p)} {nlist(sub)} {wlist(Wp)} {nlist(S)} WQ")
+        Wp = round_weights(lamp, MP)
+        parts.append(f"judge {N} {MW} {MP} {TB} Y {flist(p)} {nlist(sub)} {wlist(Wp, MP)} {nlist(S)} WQ")
         info["layout"].append(name)
         info["check"][name] = (sum(int(Fr(x) * (1 << N)) for x in flatY + p) + sum(Wp) + sum(Wq) + sum(sub) + sum(S)) % (1 << 50)
         # magnitudes (floats, for messages and for the error bounds of the known classes only)
@@ -526,7 +530,7 @@ def prepare(args):
         info["check"]["bary"] = sum(int(Fr(x) * (1 << Mb)) for x in w) % (1 << 50)
     jm = "[" + "; ".join(["jolt_ft Y"] + [f"jolt_ft {fflat(pp)}" for pp in perts]) + "]"
     om = "[" + "; ".join(["orig_ft Y"] + [f"orig_ft {fflat(pp)}" for pp in perts]) + "]"
-    expr = (f"let Y := {fflat(pts)} in let WQ := {wlist(Wq)} in "
+    expr = (f"let Y := {fflat(pts)} in let WQ := {wlist(Wq, MW)} in "
             f"({certs}, {bary}, {jm}, {om}, jolt_prev Y)")
     return expr, info
 
@@ -800,7 +804,7 @@ def gen_cases(R, tier, replay):
         for pts in lattice_all(k):
             cases.append(dict(pts=pts, gen=f"lattice3:k{k}"))
     if quick:
-        for k, n in ((3, 2500), (4, 3000)):
+        for k, n in ((3, 2000), (4, 2500)):
             seen = set()
             while len(seen) < n:
                 pts = lattice_sample(R.rng, k, (-1, 0, 1))
@@ -821,11 +825,11 @@ def gen_cases(R, tier, replay):
         for k, n in ((2, 2000), (3, 8000), (4, 15000)):
             for _ in range(n):
                 cases.append(dict(pts=lattice_sample(R.rng, k, (-2, -1, 0, 1, 2)), gen=f"lattice5:k{k}"))
-    for _ in range(2500 if quick else 30000):
-        cases.append(gen_grid(R.rng))
     for _ in range(2000 if quick else 30000):
+        cases.append(gen_grid(R.rng))
+    for _ in range(1600 if quick else 30000):
         cases.append(gen_real(R.rng))
-    for _ in range(1000 if quick else 15000):
+    for _ in range(800 if quick else 15000):
         cases.append(gen_scaled(R.rng))
     return cases
 
@@ -838,7 +842,7 @@ def run(tier, seed, replay=None):
     R = cm.Run(PID, "proof", tier, seed)
     R.cov["rule"] = (
         "case = 1..4 points. Streams: ALL configurations with coordinates in {-1,0,1} for k=1,2 (756), k=3: quick a distinct "
-        "seeded sample of 2500 / thorough all 19683, k=4: distinct seeded sample (quick 3000 / thorough 60000 of 531441); thorough: "
+        "seeded sample of 2000 / thorough all 19683, k=4: distinct seeded sample (quick 2500 / thorough 60000 of 531441); thorough: "
         "sampled {-2..2}^(3k); integer grids |coordinate| <= 72 with exact duplicates/collinear/coplanar/mirrored points (all "
         "arithmetic up to degree 6 exact in binary64); random real configurations: extents (1,s2,s3) with s log-uniform in "
         "[1e-12,1], random rotation, origin inside/near/far/near-vertex/near-edge, kinds aniso/iso/wellcond/duplicate point/"
@@ -852,10 +856,13 @@ def run(tier, seed, replay=None):
         "IEEE-754 rounding is not modelled in the theorems; its effect is measured against the property tolerance by the certificates",
         "harness/compat.py import shim; numpy/numba/CPython/OpenBLAS; the harness builds SimplexInfo through set_first_point/add_new_point with zero-initialised arrays",
     ]
+    import time as _time
+    t0 = _time.time()
     R.check_proofs(PROOF_FILES, build_targets=BUILD_TARGETS)
-
+    t1 = _time.time()
     cases = gen_cases(R, tier, replay)
     results = run_impl_cases(cases, "impl")
+    t2 = _time.time()
     R.cov["evaluations"] = len(cases)
     try:
         ev = evaluate(R, cases, results, "cases", per_file=max(40, min(400, len(cases) // (3 * cm.NCPU) + 1)))
@@ -863,6 +870,8 @@ def run(tier, seed, replay=None):
         R.corr_broken.append(f"Coq evaluation of certificates/model failed: {str(ex)[:600]}")
         return R.finish()
 
+    t3 = _time.time()
+    R.cov["phase_wall_s"] = dict(proofs=round(t1 - t0, 1), implementation=round(t2 - t1, 1), coq_evaluation=round(t3 - t2, 1))
     known = {e["id"]: e for e in R.known}
     distinct = set()
     hist, fail_hist = {}, {}
@@ -915,6 +924,9 @@ def run(tier, seed, replay=None):
                     R.corr_broken.append(f"{solver} model vs implementation: {detail} on {c['pts']}")
         if len(c["pts"]) >= 2 and (len(e["S"]) > 1 or e["dep"]):
             distinct.add(cm.canon_hash(c["pts"]))
+    t4 = _time.time()
+    R.cov["phase_wall_s"]["judging"] = round(t4 - t3, 1)
+    R.cov["suspects_rechecked"] = len(suspects)
     # second look at mismatches on apparently stable cases: 40 more perturbations
     if suspects:
         exprs = []
@@ -938,6 +950,7 @@ def run(tier, seed, replay=None):
                     corr[solver]["skipped_unstable"] += 1
         except RuntimeError as ex:
             R.corr_broken.append(f"recheck evaluation failed: {str(ex)[:300]}")
+    R.cov["phase_wall_s"]["recheck"] = round(_time.time() - t4, 1)
     R.cov["distinct_nontrivial"] = len(distinct)
     R.cov["judged_by_coq_certificate"] = len(cases)
     R.cov["harness_problems"] = n_problems
